@@ -868,6 +868,69 @@ def in_any_code(b, i):
     return i in b.live_blocks() if hasattr(b, "live_blocks") else True
 
 
+CONVERSIONS = (
+    "into", "from", "to_string", "to_owned", "as_ref", "as_str", "deref", "deref_mut", "borrow", "clone", "into_boxed_str", "leak", "into_string",
+    "into_owned", "to_vec", "as_mut", "into_bytes", "as_bytes", "from_str_unchecked", "new_unchecked", "cloned", "copied", "as_deref",
+)
+
+
+def transformations(s):
+    """Names of the calls between a value and the parameter / variable it is made from that are NOT mere changes of
+    representation (into/from/to_string/to_owned/as_ref/deref/clone/Box::leak/...): [] means "the same text in another type".
+    Returns None when the value is not a call chain over one base at all (a literal, a phi, a formatted string, ...)."""
+    out = []
+    s = strip_sym(s)
+    for _ in range(16):
+        if not isinstance(s, tuple) or not s:
+            return None
+        if s[0] == "capture" and len(s) > 2 and isinstance(s[2], tuple) and s[2]:
+            s = strip_sym(s[2])  # what the closure captured, in its creator's terms
+            continue
+        if s[0] in ("arg", "capture", "undef"):
+            return out
+        if s[0] in ("ref", "deref", "cast"):
+            s = strip_sym(s[1])
+            continue
+        if s[0] == "field" or s[0] == "downcast":
+            s = strip_sym(s[1])
+            continue
+        if s[0] == "call" and isinstance(s[1], str) and s[2]:
+            n = strip_generics(s[1]).split("::")[-1]
+            if n not in CONVERSIONS:
+                out.append(n)
+            s = strip_sym(s[2][0])
+            continue
+        return None
+    return None
+
+
+def collected_unchanged(crate, v, param):
+    """`v` is <param>.into_iter()[.map(f)].collect() with f a mere change of representation: (ok, why)."""
+    v = strip_sym(v)
+    if not sym_is_call(v, "Iterator::collect"):
+        return False, "not collect()ed from the parameter"
+    chain = []
+    cur = strip_sym(v[2][0])
+    mapf = None
+    while isinstance(cur, tuple) and cur and cur[0] == "call":
+        n_ = strip_generics(cur[1]).split("::")[-1]
+        chain.append(n_)
+        if n_ == "map" and len(cur[2]) > 1:
+            mapf = strip_sym(cur[2][1])
+        cur = strip_sym(cur[2][0])
+    a = sym_arg(cur)
+    if a is None or a[0] != param or not set(chain) <= {"map", "into_iter", "iter", "cloned", "copied"}:
+        return False, f"elements go through {chain}"
+    if mapf is not None:
+        cf = crate.fn(mapf[5]) if mapf[0] == "agg" and mapf[1] == "closure" else None
+        tr = transformations(Sym(cf).local(0)) if cf else None
+        if mapf[:2] == ("const", "fn"):
+            tr = [] if strip_generics(mapf[2]).split("::")[-1] in CONVERSIONS else [mapf[2]]
+        if tr != []:
+            return False, f"each element is passed through {tr}"
+    return True, "every element kept as it is"
+
+
 def result_unused(cs):
     """The value returned by this call is never read (e.g. `let _ = x.swap(v, ..)`, or a statement call)."""
     d = cs.t.get("dest")
